@@ -26,6 +26,11 @@ LENGTHS = [(None, "none"), ("length::Empty", "none"), ("length::Fixed<1>", "fixe
            ("length::Fixed<4>", "fixed4"), ("length::Fixed<9>", "fixed9"), ("length::Llv", "LL"), ("length::Lllv", "LLL"),
            ("length::Tlv", "BER"), ("length::Adpu", "APDU")]
 WRAPS = [("one", "{}"), ("optional", "Option<{}>"), ("repeated", "Vec<{}>")]
+# other spellings of the same types (the macro classifies fields by looking at the written path)
+SPELLINGS = {"optional": ["Option<{}>", "std::option::Option<{}>", "core::option::Option<{}>", "::std::option::Option<{}>"],
+             "repeated": ["Vec<{}>", "std::vec::Vec<{}>", "::std::vec::Vec<{}>"],
+             "one": ["{}"]}
+LEAF_SPELLINGS = {"String": ["String", "std::string::String"]}
 ONE_BYTE_TAGS = [t for t in range(1, 0xff) if t != 0x1f]
 TWO_BYTE_TAGS = [0x1f00 + i for i in range(0, 256, 7)] + [0xff00 + i for i in range(1, 256, 11)]
 
@@ -45,12 +50,20 @@ class Gen:
         self.structs = []       # (name, rust source, expected rows, control field)
         self.nested = []        # names of structs usable as nested field types: (name, greedy?)
 
-    def field(self, idx, kind, tag, length, leaf, wrap, attr_order):
+    def field(self, idx, kind, tag, length, leaf, wrap, attr_order, spell="random"):
         """kind: pos | bmp | tlv ; returns (rust lines, expected row)"""
         enc, ty, value = leaf
         lpath, prefix = length
         card, wfmt = wrap
         name = "f%d" % idx
+        if spell == "random":
+            # mostly the plain spelling, sometimes a path-qualified one
+            if self.rnd.random() < 0.2:
+                wfmt = self.rnd.choice(SPELLINGS[card])
+            if ty in LEAF_SPELLINGS and self.rnd.random() < 0.1:
+                ty = self.rnd.choice(LEAF_SPELLINGS[ty])
+        elif spell is not None:
+            wfmt = spell
         rty = wfmt.format(ty)
         parts = []
         if kind == "tlv":
@@ -109,6 +122,20 @@ class Gen:
                 k = kind[:3]
             order = self.rnd.choice(["fwd", "rev", "shuffle"])
             self.add_struct("S%d" % len(self.structs), [self.field(0, k, tag, length, leaf, wrap, order)])
+
+    def spelling_structs(self):
+        """Every spelling of Option/Vec on positional, bmp- and tlv-tagged fields (always included)."""
+        for card, wfmt in WRAPS[1:]:
+            for sp in SPELLINGS[card]:
+                for kind in ("pos", "bmp", "tlv"):
+                    tag = None if kind == "pos" else self.rnd.choice(ONE_BYTE_TAGS)
+                    leaf = self.rnd.choice([l for l in LEAVES if l[1] in ("u8", "u16", "String")])
+                    length = (None, "BER") if kind == "tlv" else self.rnd.choice(LENGTHS)
+                    f0 = self.field(0, kind, tag, length, leaf, (card, wfmt), "fwd", spell=sp)
+                    # a required tagged sibling, so that the required set is never trivially empty
+                    t2 = self.rnd.choice([t for t in ONE_BYTE_TAGS if t != tag])
+                    f1 = self.field(1, "bmp", t2, (None, "none"), (None, "u8", "int1"), WRAPS[0], "fwd", spell=None)
+                    self.add_struct("P%d" % len(self.structs), [f0, f1])
 
     def nested_leaf(self):
         name = self.rnd.choice(self.nested)
@@ -172,10 +199,12 @@ def main():
     out, mode, seed = sys.argv[1], sys.argv[2], int(sys.argv[3])
     g = Gen(seed)
     if mode == "quick":
-        g.single_field_grid(sample=110)
+        g.single_field_grid(sample=100)
+        g.spelling_structs()
         g.random_structs(40)
     else:
         g.single_field_grid()
+        g.spelling_structs()
         g.random_structs(300)
     n = g.emit(out)
     print(n)
